@@ -191,3 +191,38 @@ func (w *c06world) seed() {
 	w.visible["P"] = true
 	w.shown["P"] = c06timeIdx(got.LastAdvertisementTime)
 }
+
+// C07: a lookup miss that queues behind a refresh must not publish a view
+// older than what that refresh published.
+func VerifC07_MissFetchVsRefresh() {
+	c06pids = []peer.ID{"P"}
+	w := c06new()
+	w.seed() // P at time 1
+	// the refresh brings P to time 2; concurrently an unknown provider Q is looked up
+	w.srcs[0].content["P"] = c06entry{present: true, ti: 2}
+	done := make(chan struct{}, 2)
+	go func() {
+		w.cx.cancelled = false
+		_ = w.pc.Refresh(w.cx)
+		done <- struct{}{}
+	}()
+	go func() {
+		_, _ = w.pc.Get(context.Background(), "Q") // miss: fetches, caches a negative entry
+		done <- struct{}{}
+	}()
+	<-done
+	<-done
+	verif_Reach("both done")
+	got, err := w.pc.Get(context.Background(), "P")
+	verif_Assert(err == nil && got != nil, "the cached provider is still there")
+	if got != nil {
+		verif_Assert(c06timeIdx(got.LastAdvertisementTime) == 2, "after a refresh and a concurrent miss-fetch both completed, readers see the refreshed record")
+	}
+	n := 0
+	for _, pi := range w.pc.List() {
+		if pi.AddrInfo.ID == "P" {
+			n++
+		}
+	}
+	verif_Assert(n == 1, "the refreshed provider is listed once")
+}
